@@ -104,9 +104,12 @@ def gen_map_sites(ctx):
     return sites
 
 
-def naming_tables():
-    """reserved words and escaping rules of the three code generators, parsed out of internal/*/common/common.go"""
+def naming_tables(lenient=False):
+    """reserved words and escaping rules of the three code generators, parsed out of internal/*/common/common.go.
+    lenient: a naming function of unknown shape gets the rule None (and an entry in out["problems"]) instead of an exception, so
+    that the caller can still look for a reserved identifier with the reserved-word lists alone."""
     out = {}
+    problems = []
     for lang in ("cpp", "python", "matlab"):
         src = open(os.path.join(REPO, "tooling/internal/%s/common/common.go" % lang)).read()
         m = re.search(r"var (reservedNames|isReservedName) = map\[string\]\w+\{(.*?)\n\}", src, re.S)
@@ -126,12 +129,18 @@ def naming_tables():
             chk = re.search(r"%s\[(\w+)\]" % var, body)
             sm_ = re.search(r'Sprintf\("%s([^"]*)", (\w+)\)\s*$|return (\w+) \+ "([^"]*)"\s*$', body.strip())
             if not chk or not sm_:
+                if lenient:
+                    rules[kind] = None
+                    problems.append("gentables: %s of %s has an unexpected shape" % (fn, lang))
+                    continue
                 raise RuntimeError("gentables: %s of %s has an unexpected shape" % (fn, lang))
             suffix = sm_.group(1) if sm_.group(1) is not None else sm_.group(4)
             ret_var = sm_.group(2) or sm_.group(3)
             rules[kind] = {"casing": cased_expr, "checked": "cased" if chk.group(1) == cased_var and cased_var != "name" else
                            ("name" if cased_var != "name" else "cased"), "suffix": suffix, "returns_cased": ret_var == cased_var}
         out[lang] = {"reserved": words, "rules": rules}
+    if lenient:
+        out["problems"] = problems
     return out
 
 
@@ -294,12 +303,23 @@ def observed_aliases(ctx):
 
 
 def regenerate(ctx):
-    gen_watch()
-    gen_phases()
-    gen_map_sites(ctx)
-    gen_naming()
-    gen_visitor()
-    gen_passes()
+    # each translator belongs to the properties whose theorems mention its table: a source shape it cannot read fails those checks
+    # (reported as a translator violation by harness/check), not the others, which keep the table of the last good run
+    for fn, owners in ((gen_watch, ("C20",)), (gen_phases, ("C11",)), (lambda: gen_map_sites(ctx), ("C12",)), (gen_naming, ("C08",)),
+                       (gen_visitor, ("C09",)), (gen_passes, ("C10",))):
+        try:
+            fn()
+        except RuntimeError as ex:
+            if not str(ex).startswith("gentables:"):
+                raise
+            if ctx.prop in owners:
+                # the table keeps the contents of the last good run; the theorems are then about the OLD sources: reported, and
+                # the check goes on looking for a failing input
+                ctx.report("translator:" + re.sub(r"[^a-zA-Z0-9]+", "-", str(ex)[len("gentables:"):].strip())[:60],
+                           "the translator that regenerates a table of the model from /repo's sources cannot read them any more: %s" % ex,
+                           {"broken": "translator harness/lib/gentables.py: %s" % ex}, no_input=True)
+                continue
+            ctx.notes.append("a translator of another property could not read the sources (%s); its table was left as it was" % ex)
     t = json.loads(ctx.hook_call(["tables"]))
     L = ["(* GENERATED on every run from /repo by harness/lib/gentables.py (hook `yardl-verif tables`). Do not edit. *)",
          "From Coq Require Import NArith.", "From YV Require Import Model.Binary.", "Open Scope N_scope.", "",
